@@ -515,7 +515,9 @@ def main(pid, argv=None):
         real_valued_reencode(ck)
     if pid == "C17" and (not ck.replay or doc_level):
         cli_mode_restore(ck)
+        cli_mode_during(ck)
         mode_schedules_unmodelled(ck)
+        layer_mode_schedules(ck)
     if pid == "C08" and (not ck.replay or doc_level):
         condensed_mask_corpus(ck)
     if pid == "C02" and (not ck.replay or doc_level):
@@ -563,6 +565,47 @@ def cli_mode_restore(ck):
                          f"with strict mode {start_mode} before", {"argv": argv, "strict_mode_before": start_mode})
 
 
+def cli_mode_during(ck):
+    """the mode in which a tool runs is what the command line says -- strict unless --no-strict is given -- whatever
+    mode the calling program was in (and that one is restored afterwards)"""
+    import contextlib
+    import io
+    import sys as _sys
+    import odxtools.exceptions as ex
+    from odxtools.cli import main as cli_main
+    import odxtools.cli.list as list_tool
+    seen = []
+    orig_run = list_tool.run
+    list_tool.run = lambda args: seen.append(ex.strict_mode)
+    try:
+        for start_mode in (True, False):
+            for flag in ((), ("--no-strict",)):
+                argv = ["odxtools", *flag, "list", common.REPO + "/examples/somersault.pdx"]
+                ex.strict_mode = start_mode
+                old_argv = _sys.argv
+                _sys.argv = argv
+                seen.clear()
+                try:
+                    with contextlib.redirect_stdout(io.StringIO()), contextlib.redirect_stderr(io.StringIO()):
+                        try:
+                            cli_main.start_cli()
+                        except BaseException:  # noqa
+                            pass
+                finally:
+                    _sys.argv = old_argv
+                after = ex.strict_mode
+                ex.strict_mode = True
+                ck.count(("cli-during", tuple(argv), start_mode))
+                want = not flag
+                if seen != [want] or after != start_mode:
+                    ck.violation(f"command line {' '.join(argv[1:])} called while strict mode is {start_mode}: the tool ran with strict mode "
+                                 f"{seen} (the command line says {want}), afterwards the mode is {after}",
+                                 {"argv": argv, "strict_mode_before": start_mode})
+    finally:
+        list_tool.run = orig_run
+        ex.strict_mode = True
+
+
 def mode_schedules_unmodelled(ck):
     """C17 (oracle only) on descriptions the codec model does not cover: float objects whose BIT-LENGTH contradicts
     their base type (a problem reported in strict mode and tolerated in lenient mode) and valid ones, the multiplexer
@@ -580,6 +623,14 @@ def mode_schedules_unmodelled(ck):
     fl = [("f32_16", "A_FLOAT32", 16), ("f32_32", "A_FLOAT32", 32), ("f64_32", "A_FLOAT64", 32), ("f64_64", "A_FLOAT64", 64),
           ("f32_64", "A_FLOAT32", 64)]
     dops = "".join(fdop(*x) for x in fl)
+    # a text table in which two scales carry the same text: encoding that text is ambiguous (a strict-only problem)
+    dops += ('<DATA-OBJECT-PROP ID="tt"><SHORT-NAME>tt</SHORT-NAME><COMPU-METHOD><CATEGORY>TEXTTABLE</CATEGORY><COMPU-INTERNAL-TO-PHYS><COMPU-SCALES>'
+             + "".join(f'<COMPU-SCALE><LOWER-LIMIT>{i}</LOWER-LIMIT><UPPER-LIMIT>{i}</UPPER-LIMIT><COMPU-CONST><VT>{t}</VT></COMPU-CONST></COMPU-SCALE>'
+                       for i, t in enumerate(("off", "on", "on", "auto"))) +
+             '</COMPU-SCALES></COMPU-INTERNAL-TO-PHYS></COMPU-METHOD>'
+             '<DIAG-CODED-TYPE BASE-DATA-TYPE="A_UINT32" xsi:type="STANDARD-LENGTH-TYPE"><BIT-LENGTH>8</BIT-LENGTH></DIAG-CODED-TYPE>'
+             '<PHYSICAL-TYPE BASE-DATA-TYPE="A_UNICODE2STRING"/></DATA-OBJECT-PROP>')
+    fl = fl + [("tt", None, None)]
     reqs = "".join(
         f'<REQUEST ID="rq_{n}"><SHORT-NAME>rq_{n}</SHORT-NAME><PARAMS><PARAM xsi:type="CODED-CONST"><SHORT-NAME>sid</SHORT-NAME>'
         f'<BYTE-POSITION>0</BYTE-POSITION><CODED-VALUE>{0x50 + i}</CODED-VALUE><DIAG-CODED-TYPE BASE-DATA-TYPE="A_UINT32" '
@@ -607,8 +658,8 @@ def mode_schedules_unmodelled(ck):
         return
     for rq in raw.requests:
         n = rq.short_name
-        for v in (1.5, 0.0):
-            ops.append((f"{n}.encode(v={v})", {"request": n, "value": v}, lambda rq=rq, v=v: bytes(rq.encode(v=v)).hex()))
+        for v in (("on", "off", "auto", "nope", "on") if n == "rq_tt" else (1.5, 0.0)):
+            ops.append((f"{n}.encode(v={v!r})", {"request": n, "value": v}, lambda rq=rq, v=v: bytes(rq.encode(v=v)).hex()))
         for m in (bytes([rq.parameters[0].coded_value]) + bytes(range(1, 10)), bytes([rq.parameters[0].coded_value, 0x3F, 0xC0, 0xAA])):
             ops.append((f"{n}.decode({m.hex()})", {"request": n, "msg": m.hex()}, lambda rq=rq, m=m: repr(cc.canon_value(rq.decode(m)))))
         ops.append((f"{n}.get_static_bit_length()", {"request": n}, lambda rq=rq: rq.get_static_bit_length()))
@@ -642,6 +693,91 @@ def mode_schedules_unmodelled(ck):
         if bad:
             ck.violation(f"{label}: {bad}", dict(rp, schedule=True))
     ck.coverage["schedule_operations"] = n
+
+
+def layer_mode_schedules(ck):
+    """C17 at the level of a diagnostic layer (the message level is check_modes): DiagLayer.decode / decode_response
+    on generated layers (C06's generator: shared prefixes, NRC-CONST, several negative responses, global negative
+    responses) under strict, lenient, strict -- what succeeds in strict mode is returned identically in lenient mode,
+    and re-enabling strict mode restores the strict outcome"""
+    import logging
+    import c06
+    import odxtools.exceptions as ex
+    rng = ck.rng
+    quick = ck.tier == "quick"
+    nrc = lambda vs: cc.param(None, dict(k="nrc", dct=cc.std(cc.BUINT, 8, None, True), vs=vs))
+    u8v = cc.param(None, dict(k="value", dop=cc.simple(cc.std(cc.BUINT, 8)), dflt=None))
+    # corpus: two negative responses of one service which differ by their NRC-CONST values only
+    Ln = dict(services=[dict(id=1, name="svc1", req=dict(id=1, name="rq1", params=c06.named([c06.u8(0x30), u8v], "a"), resp=False), pos=[],
+                             neg=[dict(id=2, name="nr_general", params=c06.named([c06.u8(0x7F), c06.u8(0x30), nrc([0x10, 0x11])], "b"), resp=True),
+                                  dict(id=3, name="nr_range", params=c06.named([c06.u8(0x7F), c06.u8(0x30), nrc([0x31])], "c"), resp=True)])], gnrs=[])
+    layers = [(Ln, [(bytes([0x7F, 0x30, 0x31]), None), (bytes([0x7F, 0x30, 0x10]), None), (bytes([0x7F, 0x30, 0x31]), bytes([0x30, 5])),
+                    (bytes([0x7F, 0x30, 0x99]), None), (bytes([0x30, 7]), None)])]
+    for _ in range(12 if quick else 120):
+        layers.append((c06.gen_layer(rng), None))
+    n = 0
+    for L, msgs in layers:
+        try:
+            layer = c06.load_layer(L)
+        except Exception:  # noqa
+            continue
+        idmap = c06.ids_of(L)
+        if msgs is None:
+            msgs = []
+            for s in L["services"]:
+                for c in ([s["req"]] if s["req"] else []) + s["pos"] + s["neg"]:
+                    pre = bytearray()
+                    for p in c["params"]:
+                        kd = p["kind"]
+                        if kd["k"] == "coded":
+                            pre.append(kd["v"] & 0xFF)
+                        elif kd["k"] == "nrc":
+                            for v in kd["vs"][:2]:
+                                msgs.append((bytes(pre) + bytes([v, 1, 2]), None))
+                            pre.append(kd["vs"][-1])
+                        else:
+                            break
+                    for tail in (b"", b"\x01", b"\x01\x02\x03"):
+                        msgs.append((bytes(pre) + tail, None))
+            msgs = msgs[:40]
+        for m, rq in msgs:
+            n += 1
+            ck.count(("layer-mode", json.dumps(L, default=repr), bytes(m), rq))
+            def svc_decode(svc):
+                r, e, _ = cc.guarded(lambda: svc.decode_message(bytes(m)))
+                if e is not None:
+                    return cc.classify_exc(e)[:2]
+                return [0, [idmap[svc.short_name], 0 if r.coding_object is None else idmap[r.coding_object.odx_id.local_id],
+                            cc.canon_value(r.param_dict)]]
+            # the layer as a whole, and each of its services on its own (DiagService.decode_message)
+            ops = [("layer", lambda: c06.impl_decode(layer, idmap, m, rq))]
+            if rq is None:
+                ops += [(f"service {svc.short_name}", lambda svc=svc: svc_decode(svc)) for svc in layer.services]
+            failed = False
+            for what, op in ops:
+                outs = []
+                for strict in (True, False, True):
+                    ex.strict_mode = strict
+                    logging.getLogger("odxtools").disabled = not strict
+                    try:
+                        outs.append(op())
+                    finally:
+                        ex.strict_mode = True
+                        logging.getLogger("odxtools").disabled = False
+                bad = None
+                if outs[2] != outs[0]:
+                    bad = f"re-enabling strict mode does not restore the strict outcome: {outs[0]} vs {outs[2]}"
+                elif outs[0][0] == 0 and outs[1] != outs[0]:
+                    bad = f"decoding succeeds in strict mode with {outs[0]} but lenient mode gives {outs[1]}"
+                if bad:
+                    ck.violation(f"{what}, message {bytes(m).hex()}" + (f" (request {bytes(rq).hex()})" if rq else "") + ": " + bad,
+                                 {"layer": json.loads(json.dumps(L, default=repr)),
+                                  "msg": bytes(m).hex(), "rq": None if rq is None else bytes(rq).hex(), "layer_level": True, "operation": what})
+                    failed = True
+                    break
+            if failed:
+                break
+    ck.coverage["layer_mode_messages"] = n
 
 
 def condensed_mask_corpus(ck):
